@@ -22,6 +22,8 @@ pub struct Shared {
     pub write_err: Option<ErrorKind>,
     /// if set: the number of writes still accepted; the one after them fails (once) with BrokenPipe
     pub writes_left: Option<usize>,
+    /// kind of the error of `writes_left` (default BrokenPipe)
+    pub writes_left_kind: Option<ErrorKind>,
     /// number of read polls that found nothing (task is parked on read)
     pub parked: bool,
     pub dropped: bool,
@@ -56,8 +58,10 @@ impl Handle {
         self.0.lock().unwrap().write_err = Some(kind);
     }
     /// the transport accepts `n` more writes and fails the next one with BrokenPipe
-    pub fn fail_write_after(&self, n: usize) {
-        self.0.lock().unwrap().writes_left = Some(n);
+    pub fn fail_write_after(&self, n: usize, kind: ErrorKind) {
+        let mut s = self.0.lock().unwrap();
+        s.writes_left = Some(n);
+        s.writes_left_kind = Some(kind);
     }
     /// true when the consumer has drained the queue and is parked on a read
     pub fn idle(&self) -> bool {
@@ -119,7 +123,8 @@ impl AsyncWrite for MockIo {
         match s.writes_left {
             Some(0) => {
                 s.writes_left = None;
-                return Poll::Ready(Err(std::io::Error::from(ErrorKind::BrokenPipe)));
+                let kind = s.writes_left_kind.take().unwrap_or(ErrorKind::BrokenPipe);
+                return Poll::Ready(Err(std::io::Error::from(kind)));
             }
             Some(n) => s.writes_left = Some(n - 1),
             None => {}
